@@ -9,7 +9,7 @@
 From Coq Require Import List Bool ZArith Permutation Sorting.Sorted.
 Import ListNotations.
 Require Import Nib.C01.Model Nib.C01.Spec Nib.C01.PermSort Nib.C01.Proofs.
-Open Scope Z_scope.
+Local Open Scope Z_scope.
 
 (** MAIN: for every history of messages of the custom modules (sudo edits, EVM commits, oracle
     end-blocks, precompile registration and dispatch) and any two schedules, the final state and all
